@@ -150,7 +150,35 @@ def check_grid(case, ev):
     return None
 
 
-REPLAY = {"lines": check_line, "grid": check_grid}
+def check_dense(case, ev):
+    """case: {salt, lo, n, order}: MANY listed numbers of one small block in one anonymizer (their
+    hashes necessarily collide); every replacement must still be the keyed value a one-number
+    anonymizer gives, whatever the order in which the numbers are met."""
+    from netconan.sensitive_item_removal import AsNumberAnonymizer, anonymize_as_numbers
+
+    salt = case["salt"]
+    nums = [str(case["lo"] + i) for i in range(case["n"])]
+    an, exc = guarded(AsNumberAnonymizer, list(nums), salt)
+    if exc is not None:
+        return core.exc_finding(exc, case, "ctor/")
+    seq = nums if case["order"] == "up" else nums[::-1]
+    out, exc = guarded(anonymize_as_numbers, an, " ".join(seq))
+    if exc is not None:
+        return core.exc_finding(exc, case, "anonymize/")
+    got = out.split(" ")
+    ev.bulk(len(nums), len(nums), sample=case)
+    if len(got) != len(seq):
+        return Finding("as/structure-changed", "dense list of %d numbers" % len(nums), case)
+    for n, r in zip(seq, got):
+        solo = AsNumberAnonymizer([n], salt).anonymize(n)
+        if r != solo:
+            return Finding("as/depends-on-list-composition", "salt=%r: %s -> %s in a list of %d numbers met in %s order, %s alone" % (salt, n, r, len(nums), case["order"], solo), case)
+        if block(int(r)) != block(int(n)):
+            return Finding("as/block-changed:block%d" % block(int(n)), "%s -> %s" % (n, r), case)
+    return None
+
+
+REPLAY = {"lines": check_line, "grid": check_grid, "dense": check_dense}
 
 _asn = st.one_of(st.sampled_from(BOUNDARY), st.sampled_from(RELATED), st.integers(0, 4294967295), st.integers(0, 70000))
 _PUNCT = list(" !\"#$%&'()*+,-./:;<=>?@[\\]^_`{|}~") + ["\t", "é", "AS", "as", " ", "  "]
@@ -183,9 +211,16 @@ def t_grid(shard, nshards, seed, ev, known, nsalts=300):
     return fs
 
 
+def t_dense(shard, nshards, seed, ev, known, nsalts=4):
+    cases = [{"salt": "dense%d" % i, "lo": lo, "n": n, "order": order} for i in range(nsalts) for lo, n in ((64512, 1024), (0, 600), (65536, 300)) for order in ("up", "down")]
+    cases = [c for k, c in enumerate(cases) if k % nshards == shard]
+    return core.enum_drive(cases, check_dense, ev, known, "dense")
+
+
 def plan(tier):
     q = tier == "quick"
     return [
         Task("lines", t_lines, shards=4 if q else 16, n=1500 if q else 40000),
         Task("grid", t_grid, shards=4 if q else 16, nsalts=1500 if q else 30000),
+        Task("dense", t_dense, shards=2 if q else 8, nsalts=2 if q else 40),
     ]
